@@ -127,7 +127,7 @@ def run(ctx):
         if si >= BIG:
             kind = 'int-be' if si % 2 == 0 else 'float32'
         if kind.startswith('int'):
-            spec = zoo.int_spec(srng, n=int(srng.integers(6, 30)) if si < BIG else int(srng.choice([65537, 100001])),
+            spec = zoo.int_spec(srng, n=int(srng.integers(6, 30)) if si < BIG else int(srng.choice([65537, 300001])),
                                 d=int(srng.integers(2, 5)) if si < BIG else 8)
             spec['byteord'] = '4,3,2,1' if kind != 'int-le' else '1,2,3,4'
             if kind == 'int-nometa':
